@@ -1,15 +1,15 @@
-\* quick: strings <= 4 over 8 letters, names <= 3 over 9 letters, triples of 14 token kinds,
+\* quick: strings <= 4 over 8 letters, names <= 3 over 9 letters, triples of 15 token kinds,
 \* nesting depth 2; plain and pretty (+ content stream)
 INIT GenInit
 NEXT GenNext
 CONSTANTS
   Mutation = "none"
-  NilDictIsNull = FALSE
+  NilDictIsNull = TRUE
   StrAlphabet = {40, 41, 92, 13, 10, 97, 0, 128}
   NameAlphabet = {35, 47, 32, 97, 49, 40, 0, 127, 128}
   MaxStr = 4
   MaxName = 3
-  TokKinds = {"null", "true", "false", "int", "negint", "real", "name", "namedig", "str", "hexstr", "arr", "dict", "ref", "nilarr"}
+  TokKinds = {"null", "true", "false", "int", "negint", "real", "name", "namedig", "str", "hexstr", "arr", "dict", "ref", "nilarr", "nildict"}
   MaxToks = 3
   OptSets = {{}, {"Pretty"}, {"ContentStream"}, {"Pretty", "ContentStream", "DictTypes", "TextStringUtf8", "TrimStandardFonts"}}
   RenderStrMax = 2
